@@ -13,7 +13,12 @@ pub struct Field { pub off: usize, pub w: u8, pub be: bool, pub what: String, pu
 pub struct Ptr { pub off: usize, pub w: u8, pub be: bool, pub target: usize, pub min_cut: usize, pub what: String }
 /// a field that holds the size of a structure starting at `start`
 pub struct Sized { pub off: usize, pub w: u8, pub be: bool, pub start: usize }
-pub struct Found { pub fmt: &'static str, pub fields: Vec<Field>, pub dict: Vec<u64>, pub ptrs: Vec<Ptr>, pub sized: Vec<Sized> }
+/// a value of some field(s) under which the file has OTHER fields: optional members that exist only when a
+/// flag / offset / magic has a given value (LNK VolumeLabelOffset == 0x14, LinkInfoHeaderSize >= 0x24, link flags,
+/// PE optional-header magic, ELF class and byte order, Mach-O 32/64, DEX endian tag, OLE sector size, ZIP zip64
+/// markers).  The sweep applies the writes, runs `find` again on the result and sweeps what it finds there.
+pub struct Switch { pub writes: Vec<(usize, u8, bool, u64)>, pub what: String }
+pub struct Found { pub fmt: &'static str, pub fields: Vec<Field>, pub dict: Vec<u64>, pub ptrs: Vec<Ptr>, pub sized: Vec<Sized>, pub switches: Vec<Switch> }
 
 pub fn rd(d: &[u8], off: usize, w: usize, be: bool) -> Option<u64> {
     let s = d.get(off..off.checked_add(w)?)?;
@@ -25,9 +30,9 @@ pub fn wr(d: &mut [u8], off: usize, w: usize, be: bool, val: u64) {
     for i in 0..w { let b = (val >> (8 * i)) as u8; if be { d[off + w - 1 - i] = b } else { d[off + i] = b } }
 }
 
-struct B<'a> { d: &'a [u8], f: Vec<Field>, dict: Vec<u64>, be: bool, ptrs: Vec<Ptr>, sized: Vec<Sized> }
+struct B<'a> { d: &'a [u8], f: Vec<Field>, dict: Vec<u64>, be: bool, ptrs: Vec<Ptr>, sized: Vec<Sized>, switches: Vec<Switch> }
 impl<'a> B<'a> {
-    fn new(d: &'a [u8]) -> Self { B { d, f: vec![], dict: vec![], be: false, ptrs: vec![], sized: vec![] } }
+    fn new(d: &'a [u8]) -> Self { B { d, f: vec![], dict: vec![], be: false, ptrs: vec![], sized: vec![], switches: vec![] } }
     fn r(&self, off: usize, w: usize) -> Option<u64> { rd(self.d, off, w, self.be) }
     fn r16(&self, off: usize) -> Option<usize> { self.r(off, 2).map(|v| v as usize) }
     fn r32(&self, off: usize) -> Option<usize> { self.r(off, 4).map(|v| v as usize) }
@@ -61,6 +66,13 @@ impl<'a> B<'a> {
             self.sized.push(Sized { off, w: w as u8, be: self.be && w > 1, start });
         }
     }
+    /// the file would have other fields if the field at `off` held `val`
+    fn switch(&mut self, off: usize, w: usize, val: u64, what: &str) { self.switch2(&[(off, w, val)], what) }
+    fn switch2(&mut self, ws: &[(usize, usize, u64)], what: &str) {
+        if ws.iter().all(|(off, w, _)| off.checked_add(*w).map_or(false, |e| e <= self.d.len())) && ws.iter().any(|(off, w, val)| self.r(*off, *w) != Some(*val)) && self.switches.len() < 64 {
+            self.switches.push(Switch { writes: ws.iter().map(|(off, w, val)| (*off, *w as u8, self.be && *w > 1, *val)).collect(), what: what.to_string() });
+        }
+    }
     fn count(&mut self, v: usize) { let v = v as u64; if v > 0 && !self.dict.contains(&v) && self.dict.len() < 10 { self.dict.push(v); } }
 }
 
@@ -84,7 +96,7 @@ pub fn find(d: &[u8]) -> Found {
         else if d.starts_with(b"PK") { zip(&mut b); "zip" }
         else { "other" };
     tags(&mut b);
-    Found { fmt, fields: b.f, dict: b.dict, ptrs: b.ptrs, sized: b.sized }
+    Found { fmt, fields: b.f, dict: b.dict, ptrs: b.ptrs, sized: b.sized, switches: b.switches }
 }
 
 /// magic tags that parsers SEARCH for (or recognise wherever a pointer leads): found by search here too
@@ -120,6 +132,8 @@ fn pe(b: &mut B) {
     let opt = pe + 24;
     let soh = b.r16(pe + 20).unwrap_or(0);
     let plus = b.r16(opt) == Some(0x20b);
+    // the other layout of the optional header (ImageBase width, position of the data directories)
+    b.switch(opt, 2, if plus { 0x10b } else { 0x20b }, "switch:optional_header.magic");
     b.size_of(pe + 20, 2, opt, "coff.size_of_optional_header");
     for o in [0usize, 40, 42, 44, 46, 48, 50, 68, 70] { b.push(opt + o, 2, "opt.u16", false); }
     b.span(opt + 4, soh.min(0xf0).saturating_sub(4), 4, "opt.u32");
@@ -249,6 +263,7 @@ fn elf(b: &mut B) {
     let d = b.d;
     if d.len() < 0x34 { return; }
     let is64 = d[4] == 2; b.be = d[5] == 2;
+    b.switch(4, 1, if is64 { 1 } else { 2 }, "switch:ei_class"); b.switch(5, 1, if d[5] == 2 { 1 } else { 2 }, "switch:ei_data");
     let a = if is64 { 8 } else { 4 }; // address size
     b.push(0x10, 2, "ehdr.e_type", false); b.push(0x12, 2, "ehdr.e_machine", false); b.push(0x14, 4, "ehdr.e_version", false);
     b.hot(0x18, a, "ehdr.e_entry"); b.hot(0x18 + a, a, "ehdr.e_phoff"); b.hot(0x18 + 2 * a, a, "ehdr.e_shoff");
@@ -319,6 +334,7 @@ fn macho_thin(b: &mut B, base: usize) {
     if magic != 0xfeedfacf && magic != 0xfeedface && !thin_be { return; }
     let is64 = magic == 0xfeedfacf || magic == 0xcffaedfe;
     b.be = thin_be;
+    b.switch(base, 4, if is64 { 0xfeedface } else { 0xfeedfacf }, "switch:magic_32/64");
     for (o, n) in [(4usize, "cputype"), (8, "cpusubtype"), (12, "filetype")] { b.push(base + o, 4, &format!("header.{}", n), false); }
     b.hot(base + 16, 4, "header.ncmds"); b.hot(base + 20, 4, "header.sizeofcmds"); b.push(base + 24, 4, "header.flags", false);
     let ncmds = b.r32(base + 16).unwrap_or(0).min(96);
@@ -384,6 +400,8 @@ fn lnk(b: &mut B) {
     b.size_of(0, 4, 0, "header.size"); b.hot(0x14, 4, "header.link_flags"); b.push(0x18, 4, "header.file_attributes", false);
     b.hot(0x34, 4, "header.file_size"); b.push(0x38, 4, "header.icon_index", false); b.push(0x3c, 4, "header.show_command", false); b.push(0x40, 2, "header.hotkey", false);
     let flags = b.r32(0x14).unwrap_or(0);
+    // every structure after the header is there only if its link flag is set
+    for bit in 0..9u32 { b.switch(0x14, 4, (flags ^ (1 << bit)) as u64, &format!("switch:link_flags^{:#x}", 1u32 << bit)); }
     let mut p = 0x4c;
     if flags & 1 != 0 {
         b.size_of(p, 2, p + 2, "idlist.size");
@@ -402,9 +420,28 @@ fn lnk(b: &mut B) {
         b.hspan(li, 28, 4, "linkinfo.header"); b.size_of(li, 4, li, "linkinfo.size"); b.size_of(li + 4, 4, li, "linkinfo.header_size");
         for o in [12usize, 16, 20, 24] { if let Some(v) = b.r32(li + o) { if v != 0 { b.ptr(li + o, 4, li + v, li, "linkinfo.offset"); } } }
         let hs = b.r32(li + 4).unwrap_or(0);
-        if hs >= 0x24 { b.hspan(li + 28, 8, 4, "linkinfo.unicode_offsets"); }
-        if let Some(v) = b.r32(li + 12) { if v != 0 { b.hspan(li + v, 16, 4, "linkinfo.volume_id"); b.size_of(li + v, 4, li + v, "linkinfo.volume_id.size"); } }
-        if let Some(v) = b.r32(li + 20) { if v != 0 { b.hspan(li + v, 20, 4, "linkinfo.common_network_relative_link"); } }
+        // optional members: the two unicode offsets (header size >= 0x24), VolumeID / CommonNetworkRelativeLink (LinkInfoFlags)
+        if hs >= 0x24 { b.hspan(li + 28, 8, 4, "linkinfo.unicode_offsets"); for o in [28usize, 32] { if let Some(v) = b.r32(li + o) { if v != 0 { b.ptr(li + o, 4, li + v, li, "linkinfo.unicode_offset"); } } } }
+        else { b.switch(li + 4, 4, 0x24, "switch:linkinfo.header_size=0x24"); }
+        let lif = b.r32(li + 8).unwrap_or(0);
+        for bit in [1usize, 2] { if lif & bit == 0 { b.switch(li + 8, 4, (lif | bit) as u64, &format!("switch:linkinfo.flags|{}", bit)); } }
+        if let Some(v) = b.r32(li + 12) { if v != 0 {
+            let vi = li + v;
+            b.hspan(vi, 16, 4, "linkinfo.volume_id"); b.size_of(vi, 4, vi, "linkinfo.volume_id.size");
+            if let Some(lo) = b.r32(vi + 12) { b.ptr(vi + 12, 4, vi + lo, vi, "linkinfo.volume_id.label_offset"); }
+            // VolumeLabelOffsetUnicode exists only when VolumeLabelOffset == 0x14
+            if b.r32(vi + 12) == Some(0x14) { b.hot(vi + 16, 4, "linkinfo.volume_id.label_offset_unicode"); if let Some(lo) = b.r32(vi + 16) { b.ptr(vi + 16, 4, vi + lo, vi, "linkinfo.volume_id.label_offset_unicode"); } }
+            else { b.switch(vi + 12, 4, 0x14, "switch:volume_id.label_offset=0x14"); }
+        } }
+        if let Some(v) = b.r32(li + 20) { if v != 0 {
+            let cn = li + v;
+            b.hspan(cn, 20, 4, "linkinfo.common_network_relative_link"); b.size_of(cn, 4, cn, "linkinfo.cnrl.size");
+            for o in [8usize, 12] { if let Some(x) = b.r32(cn + o) { if x != 0 { b.ptr(cn + o, 4, cn + x, cn, "linkinfo.cnrl.name_offset"); } } }
+            let cf = b.r32(cn + 4).unwrap_or(0);
+            for bit in [1usize, 2] { if cf & bit == 0 { b.switch(cn + 4, 4, (cf | bit) as u64, &format!("switch:cnrl.flags|{}", bit)); } }
+            // the unicode name offsets exist only when NetNameOffset > 0x14
+            if b.r32(cn + 8).unwrap_or(0) > 0x14 { b.hspan(cn + 20, 8, 4, "linkinfo.cnrl.unicode_offsets"); } else { b.switch(cn + 8, 4, 0x1c, "switch:cnrl.net_name_offset=0x1c"); }
+        } }
         p = li + b.r32(li).unwrap_or(0);
     }
     let unicode = flags & 0x80 != 0;
@@ -423,6 +460,7 @@ fn lnk(b: &mut B) {
 
 // ---------------------------------------------------------------- DEX
 fn dex(b: &mut B) {
+    b.switch(0x28, 4, 0x78563412, "switch:endian_tag=reverse");
     b.hspan(0x20, 0x50, 4, "header"); b.size_of(0x20, 4, 0, "header.file_size"); b.size_of(0x24, 4, 0, "header.header_size");
     if let (Some(ds), Some(doff)) = (b.r32(0x68), b.r32(0x6c)) { let _ = ds; b.ptr(0x6c, 4, doff, 0, "header.data_off"); b.size_of(0x68, 4, doff, "header.data_size"); }
     let tabs: [(&str, usize, usize, &[usize]); 6] = [("string_ids", 0x38, 4, &[4]), ("type_ids", 0x40, 4, &[4]), ("proto_ids", 0x48, 12, &[4, 4, 4]), ("field_ids", 0x50, 8, &[2, 2, 4]), ("method_ids", 0x58, 8, &[2, 2, 4]), ("class_defs", 0x60, 32, &[4, 4, 4, 4, 4, 4, 4, 4])];
@@ -459,9 +497,15 @@ fn zip(b: &mut B) {
     for o in [4usize, 6, 8, 10, 20] { b.hot(eocd + o, 2, "eocd.u16"); }
     b.hot(eocd + 12, 4, "eocd.central_directory_size"); b.hot(eocd + 16, 4, "eocd.central_directory_offset");
     b.count(b.r16(eocd + 10).unwrap_or(0));
+    // zip64: the real values are in other records when these fields are all-ones
+    b.switch(eocd + 10, 2, 0xffff, "switch:eocd.total_entries=0xffff"); b.switch(eocd + 16, 4, 0xffff_ffff, "switch:eocd.central_directory_offset=max"); b.switch(eocd + 12, 4, 0xffff_ffff, "switch:eocd.central_directory_size=max");
     // the archive may be embedded (CRX): offsets are relative to its start
     let cd_size = b.r32(eocd + 12).unwrap_or(0);
     let mut cd = match b.r32(eocd + 16) { Some(x) => x, None => return };
+    // zip64: the central directory offset is in the zip64 end-of-central-directory record
+    if d.get(cd..cd.saturating_add(4)) != Some(&b"PK\x01\x02"[..]) && eocd >= 20 && d.get(eocd - 20..eocd - 16) == Some(&b"PK\x06\x07"[..]) {
+        if let Some(z) = b.r(eocd - 20 + 8, 8).map(|x| x.min(1 << 40) as usize) { if let Some(c) = b.r(z + 48, 8) { cd = c.min(1 << 40) as usize; } }
+    }
     if d.get(cd..cd.saturating_add(4)) != Some(&b"PK\x01\x02"[..]) { cd = eocd.saturating_sub(cd_size); }
     let delta = cd.saturating_sub(b.r32(eocd + 16).unwrap_or(0));
     b.ptr(eocd + 16, 4, cd, delta, "eocd.central_directory_offset"); b.size_of(eocd + 12, 4, cd, "eocd.central_directory_size"); b.size_of(eocd + 20, 2, eocd + 22, "eocd.comment_length");
@@ -469,6 +513,8 @@ fn zip(b: &mut B) {
         if d.get(cd..cd.saturating_add(4)) != Some(&b"PK\x01\x02"[..]) { break; }
         for o in [4usize, 6, 8, 10, 12, 14, 28, 30, 32, 34, 36] { b.hot(cd + o, 2, "central.u16"); }
         for o in [16usize, 20, 24, 38, 42] { b.hot(cd + o, 4, "central.u32"); }
+        for (o, n) in [(20usize, "compressed_size"), (24, "uncompressed_size"), (42, "local_header_offset")] { b.switch(cd + o, 4, 0xffff_ffff, &format!("switch:central.{}=max(zip64 extra)", n)); }
+        b.switch(cd + 8, 2, b.r16(cd + 8).unwrap_or(0) as u64 | 8, "switch:central.flags|data_descriptor");
         let (fnl, exl) = (b.r16(cd + 28).unwrap_or(0), b.r16(cd + 30).unwrap_or(0));
         b.size_of(cd + 28, 2, cd + 46, "central.file_name_length"); b.size_of(cd + 30, 2, cd + 46 + fnl, "central.extra_length"); b.size_of(cd + 32, 2, cd + 46 + fnl + exl, "central.comment_length");
         if let Some(l) = b.r32(cd + 42).map(|x| x + delta) {
@@ -477,7 +523,10 @@ fn zip(b: &mut B) {
             if d.get(l..l.saturating_add(4)) == Some(&b"PK\x03\x04"[..]) { for o in [4usize, 6, 8, 10, 12, 26, 28] { b.hot(l + o, 2, "local.u16"); } for o in [14usize, 18, 22] { b.hot(l + o, 4, "local.u32"); } }
         }
         let ex = cd + 46 + b.r16(cd + 28).unwrap_or(0);
-        if b.r16(cd + 30).unwrap_or(0) >= 4 { b.hot(ex, 2, "central.extra.id"); b.hot(ex + 2, 2, "central.extra.size"); }
+        if b.r16(cd + 30).unwrap_or(0) >= 4 {
+            b.hot(ex, 2, "central.extra.id"); b.size_of(ex + 2, 2, ex + 4, "central.extra.size");
+            if b.r16(ex) == Some(1) { let n = b.r16(ex + 2).unwrap_or(0).min(32) / 8; for k in 0..n { b.hot(ex + 4 + 8 * k, 8, "central.extra.zip64.u64"); } }
+        }
         cd = cd + 46 + b.r16(cd + 28).unwrap_or(0) + b.r16(cd + 30).unwrap_or(0) + b.r16(cd + 32).unwrap_or(0);
     }
     if eocd >= 20 && d.get(eocd - 20..eocd - 16) == Some(&b"PK\x06\x07"[..]) {
@@ -491,6 +540,8 @@ fn ole(b: &mut B) {
     for o in [0x18usize, 0x1a, 0x1c, 0x1e, 0x20] { b.hot(o, 2, "header.u16"); }
     b.hspan(0x28, 0x24, 4, "header.u32");
     b.hspan(0x4c, 16, 4, "header.difat[i]");
+    if b.r16(0x1e) == Some(9) { b.switch2(&[(0x1a, 2, 4), (0x1e, 2, 12)], "switch:major_version=4,sector_shift=12"); } else { b.switch2(&[(0x1a, 2, 3), (0x1e, 2, 9)], "switch:major_version=3,sector_shift=9"); }
+    b.switch(0x38, 4, 0, "switch:mini_stream_cutoff=0"); b.switch(0x38, 4, 0xffff_ffff, "switch:mini_stream_cutoff=max");
     let shift = b.r16(0x1e).unwrap_or(9).min(12).max(7);
     let ssz = 1usize << shift;
     let sector = |n: usize| (n.saturating_add(1)).saturating_mul(ssz);
